@@ -42,6 +42,17 @@ Proof.
   apply list_eqb_refl. apply cell_eqb_refl.
 Qed.
 
+(* for a legal array the lenient expectation of the judge is the array the model stores *)
+Lemma expected_store_same k r c a :
+  arr_form_ok k r c a = true -> arr_same_values (expected_store k a) (stored_form k a) = true.
+Proof.
+  intro Hf. unfold expected_store, stored_form. destruct (is_photon k) eqn:Hk; [apply arr_same_values_refl|].
+  unfold arr_form_ok in Hf. rewrite Hk in Hf. destruct (a_xr a) as [xi|] eqn:Ex.
+  - cbn [andb] in Hf. rewrite andb_false_r in Hf. discriminate.
+  - unfold arr_same_values, as_numpy. cbn [a_xr a_shape a_data]. rewrite Ex, shape_eqb_refl. simpl.
+    apply list_eqb_refl. apply cell_eqb_refl.
+Qed.
+
 Lemma rebuild c : {| c_kind := c_kind c; c_rows := c_rows c; c_cols := c_cols c; c_content := c_content c |} = c.
 Proof. destruct c; reflexivity. Qed.
 
@@ -84,8 +95,8 @@ Proof.
   pose proof (assign_stores tb Htb c o) as Hs. unfold stores in Hs.
   destruct (assignment_of (c_kind c) o (c_content c)) as [[a|]|] eqn:Ea; [| |reflexivity].
   - destruct (arr_form_ok (c_kind c) (c_rows c) (c_cols c) a) eqn:Ef.
-    + destruct (snd (step tb c o)) eqn:Eo; try reflexivity.
-      rewrite (Hs eq_refl). cbn [is_raise negb]. rewrite arr_same_values_refl. reflexivity.
+    + destruct (snd (step tb c o)) eqn:Eo; try reflexivity; unfold assignable; rewrite Ef; try reflexivity.
+      rewrite (Hs eq_refl). cbn [is_raise negb orb]. rewrite (expected_store_same _ _ _ _ Ef). reflexivity.
     + destruct (illegal_assign_raises tb Htb c o a Ea Ef) as [e He]. rewrite He. reflexivity.
   - destruct (snd (step tb c o)) eqn:Eo; try reflexivity. rewrite (Hs eq_refl). reflexivity.
 Qed.
